@@ -43,7 +43,8 @@ ASSUMPTIONS = [
 NAMES_PLAIN = ['web', 'db', 'fw', 'lan', 'alice', 'key1', 'dmz', 'api']
 NAMES_ODD = ['yes', 'null', '123', '0', 'a: b', '- x', 'éü', '"q"', "it's", '#c', ' lead',
              'x:1', 'Host:0', 'Host:1', 'träd ☃', '{}', '[a]', 'a,b', '~', 'on', '1e3',
-             '0x10', 'multi\nline', 'tab\there', '']
+             '0x10', 'multi\nline', 'tab\there', '', 'Mainframe\u0085LPAR', 'line\u2028sep',
+             'nb\u00a0sp', 'bom\ufeffx']
 EXTRAS = [{'color': 'red'}, {'position': {'x': 1, 'y': -2.5}}, {'tags': ['a', 'b'], 'n': 0},
           {'note': 'yes'}, {'k': None}, {'1': 'one'}, {'007': 'bond', 'years': {'2024': 1, '-1': 2}}]
 
@@ -366,6 +367,17 @@ class ModelWorld(BaseWorld):
             self.count('probe:language_with_duplicate_assoc_names')
         if self.prop == 'C06':
             self._check_classes()
+            # a second factory built from the same language graph exposes the same classes
+            o2 = call(LanguageClassesFactory, self.lg)
+            if o2.raised:
+                raise Violation('C06.classes', f'a second LanguageClassesFactory on the same '
+                                               f'language graph raised {o2.exc!r}')
+            first, self.factory = self.factory, o2.value
+            try:
+                self._check_classes()
+            finally:
+                self.factory = first
+            self.count('probe:second_factory_on_one_language_graph')
 
     # ------------------------------------------------------------ plumbing
     def fail(self, clause, msg):
@@ -638,6 +650,8 @@ class ModelWorld(BaseWorld):
             aid = rng.choice([0, 0, -1, -7, 3, 5, 10, 12, 100])
         elif r < 0.75 + p_inv * 0.5 and live_ids:
             aid = rng.choice(live_ids)                # in use: must be refused
+        elif r < 0.75 + p_inv * 0.7:
+            aid = rng.choice([2.5, '7', 3.0001])      # not an integer: must be refused
         else:
             aid = rng.randint(0, 15)
         # --- name
@@ -660,7 +674,8 @@ class ModelWorld(BaseWorld):
         dnames = sorted(self.L.defenses(t))
         for d in dnames:
             if rng.random() < 0.3:
-                defs[d] = rng.choice([0.0, 1.0, 0.5, 0.25, 1, 0, 0.999])
+                defs[d] = rng.choice([0.0, 1.0, 0.5, 0.25, 1, 0, 0.999, 1 / 3, 2.5e-7,
+                                      0.123456789, 0.9999997])
         if dnames and rng.random() < p_inv * 0.3:
             defs[rng.choice(dnames)] = rng.choice([-0.1, 1.5, 2, -1, 1.0001])
         extras = rng.choice(EXTRAS) if rng.random() < 0.2 else None
@@ -692,7 +707,7 @@ class ModelWorld(BaseWorld):
         if rng.random() < self.cfg['p_invalid']:
             v = rng.choice([-0.5, 1.5, 7, -1, 1.01])
         else:
-            v = rng.choice([0.0, 1.0, 0.5, 0.75, 1, 0])
+            v = rng.choice([0.0, 1.0, 0.5, 0.75, 1, 0, 1 / 3, 2.5e-7, 0.9999997])
         return {'op': 'set_defense', 'h': h, 'defense': d, 'value': v}
 
     def _stale_ok(self, ref, h):
@@ -1050,7 +1065,8 @@ class ModelWorld(BaseWorld):
         aid, name, allow = op.get('id'), op.get('name'), op.get('allow_dup', True)
         live_ids, live_names = ref.live_ids(), ref.live_names()
         must_raise = (aid is not None and aid in live_ids) or \
-                     (name is not None and name in live_names and not allow)
+                     (name is not None and name in live_names and not allow) or \
+                     (aid is not None and (isinstance(aid, bool) or not isinstance(aid, int)))
         kw = {}
         if aid is not None:
             kw['asset_id'] = aid
@@ -1651,7 +1667,7 @@ class ModelWorld(BaseWorld):
             if fmt == 'json':
                 json.dump(doc, f, indent=2)
             else:
-                yaml.safe_dump(doc, f, sort_keys=False, allow_unicode=True)
+                yaml.safe_dump(doc, f, sort_keys=False, allow_unicode=False)
         where = f'load of a hand-written {ext} file (asset order {order}, ' \
                 f'shorthand={used_shorthand})'
         o = call(self.Model.load_from_file, path, self.factory)
